@@ -5,7 +5,8 @@ Python expression syntax, compiled by the engine's spec evaluator."""
 
 class Behaviour(object):
     def __init__(self, name, ghost=None, requires=(), ensures=None, raises=None, modifies=(), hints=(),
-                 split=(), calls=None, result=None, unfold_depth=1, loops=None, assumes=(), native_build=None, init=None, native=None, sets=None, noreturn=False):
+                 split=(), calls=None, result=None, unfold_depth=1, loops=None, assumes=(), native_build=None, init=None, native=None, sets=None, noreturn=False, effects=None):
+        self.effects = effects                      # {'normal': n, 'raise': (lo, hi)}: number of direct Call events per exit
         self.noreturn = noreturn                    # the function never returns normally (always raises)
         self.sets = dict(sets or {})                # heap location -> expression: exact new value on normal exit (reference-valued fields)
         self.init = dict(init or {})                # heap location -> expression: initial value overriding the declared field sort
@@ -28,7 +29,8 @@ class Behaviour(object):
 
 class Contract(object):
     def __init__(self, target, params=None, behaviours=None, loops=None, inline=False, result=None,
-                 fields=None, locals=None, note="", tier=1, trusted=False, dispatch=None, **default_behaviour):
+                 fields=None, locals=None, note="", tier=1, trusted=False, dispatch=None, effect_free=False, **default_behaviour):
+        self.effect_free = effect_free              # no ghost event on any exit (proved); call sites then record no event
         self.dispatch = list(dispatch or [])        # [(condition expr | None, behaviour name)]: behaviour used at a call site
         self.target = target                        # "rpyc/core/brine.py::_dump_bytes"
         self.params = dict(params or {})            # name -> sort (in order of the signature)
